@@ -354,20 +354,24 @@ def flags(R):
     # header byte expression in build()
     g = R.cfg(FR + '.build')
     rd = ReachingDefs(g)
+    from .common import header_arms
+    seen_arm = set()
     packs = []
-    for n in g.live_nodes():
-        for c in n.calls:
-            sf = struct_format(R, g.ctx, c)
-            if sf and sf[0] == 'pack' and sf[1].startswith('!BB'):
-                packs.append((n, c, sf[1]))
-    need(len(packs) == 3, 'Frame.build: expected 3 header pack calls, found %d' % len(packs))
-    for (n, c, fmt) in packs:
-        b0, bn = rd.origin(n, c.args[0])
+    for (n, fmt, args, l) in header_arms(R, g, rd, g.entry):
+        key_ = (n.id, fmt, tuple(U(a) for a in args))
+        if key_ in seen_arm or len(args) < 2:
+            continue
+        seen_arm.add(key_)
+        packs.append((n, args, fmt))
+    need(len(set(f_ for (_, _, f_) in packs)) == 3, 'Frame.build: expected 3 header forms, found %s' % sorted(set(f_ for (_, _, f_) in packs)))
+    for (n, args_, fmt) in packs:
+        c = n.ast
+        b0, bn = rd.origin(n, args_[0])
         coefs = _bitfield(b0)
         ok = coefs == {'fin': 128, 'rsv1': 64, 'rsv2': 32, 'rsv3': 16, 'opcode': 1}
         R.ob('C03.flags', 'header byte 0 layout (%s)' % fmt, ok, 'byte0 = %s gives bit weights %s' % (U(b0), coefs),
              func=build, node=c, construct='byte0 ' + U(b0))
-        b1 = c.args[1]
+        b1 = args_[1]
         parts = _or_parts(b1)
         mb = [p for p in parts if isinstance(p, ast.Name)]
         okm = False
@@ -408,30 +412,28 @@ def lenenc(R):
     f = R.func(q)
     g = R.cfg(q)
     rd = ReachingDefs(g)
-    arms = []
-    for n in g.live_nodes():
-        for c in n.calls:
-            sf = struct_format(R, g.ctx, c)
-            if sf and sf[0] == 'pack' and sf[1].startswith('!BB'):
-                arms.append((n, c, sf[1]))
-    need(len(arms) == 3, 'Frame.build: expected 3 length-class arms')
     # the length variable: len(<payload object that is masked/serialised>)
     lenvars = [n for n in g.live_nodes() if n.kind == 'stmt' and isinstance(n.ast, ast.Assign)
                and isinstance(n.ast.value, ast.Call) and U(n.ast.value.func) == 'len']
     need(len(lenvars) == 1, 'Frame.build: length variable not found')
     lv = lenvars[0].ast.targets[0].id
     lenof = U(lenvars[0].ast.value.args[0])
+    from .common import header_arms
     caps = {'!BB': (0, 125, None), '!BBH': (126, 65535, 126), '!BBQ': (65536, (1 << 63) - 1, 127)}
     got = {}
-    for (n, c, fmt) in arms:
-        pcs = path_conditions(R, g, rd, lenvars[0], n)
-        lo, hi = INF, -INF
-        for l in pcs:
-            a, b = interval_of(R, g.ctx, l, lv)
-            lo = min(lo, max(a, 0))
-            hi = max(hi, b)
-        got[fmt] = (lo, hi)
+    byfmt = {}
+    for (n, fmt, args, l) in header_arms(R, g, rd, lenvars[0]):
         need(fmt in caps, 'unexpected header format %s' % fmt)
+        a, b = interval_of(R, g.ctx, l, lv)
+        e = byfmt.setdefault(fmt, {'lo': INF, 'hi': -INF, 'args': [], 'node': n})
+        e['lo'] = min(e['lo'], max(a, 0))
+        e['hi'] = max(e['hi'], b)
+        e['args'].append(args)
+    need(len(byfmt) == 3, 'Frame.build: expected 3 length-class arms, found %s' % sorted(byfmt))
+    for fmt, e in sorted(byfmt.items()):
+        lo, hi = e['lo'], e['hi']
+        c = e['node'].ast
+        got[fmt] = (lo, hi)
         minlo, cap, marker = caps[fmt]
         R.ob('C03.lenenc', 'arm %s: capacity' % fmt, hi <= cap,
              'length up to %s is packed into a %s header (field capacity %d)' % (hi, fmt, cap), func=f, node=c,
@@ -440,16 +442,17 @@ def lenenc(R):
              'length %s is encoded with the %s form although a shorter form fits' % (lo, fmt), func=f, node=c,
              construct='arm %s lo=%s' % (fmt, lo))
         # marker / length field
-        parts = _or_parts(c.args[1])
-        if marker is None:
-            ok = any(isinstance(p, ast.Name) and p.id == lv for p in parts)
-            R.ob('C03.lenenc', 'arm %s: 7-bit field carries the length' % fmt, ok, 'byte1 = %s' % U(c.args[1]),
-                 func=f, node=c)
-        else:
-            ok = any(fold(R, p, g.ctx) == marker for p in parts) \
-                and len(c.args) == 3 and isinstance(c.args[2], ast.Name) and c.args[2].id == lv
-            R.ob('C03.lenenc', 'arm %s: marker %d and extended length' % (fmt, marker), ok,
-                 'pack(%s)' % ', '.join(U(a) for a in c.args), func=f, node=c)
+        for args in e['args']:
+            parts = _or_parts(args[1])
+            if marker is None:
+                ok = any(isinstance(p, ast.Name) and p.id == lv for p in parts)
+                R.ob('C03.lenenc', 'arm %s: 7-bit field carries the length' % fmt, ok, 'byte1 = %s' % U(args[1]),
+                     func=f, node=c)
+            else:
+                ok = any(fold(R, p, g.ctx) == marker for p in parts) \
+                    and len(args) == 3 and isinstance(args[2], ast.Name) and args[2].id == lv
+                R.ob('C03.lenenc', 'arm %s: marker %d and extended length' % (fmt, marker), ok,
+                     'pack(%s)' % ', '.join(U(a) for a in args), func=f, node=c)
     # coverage without gaps: 0..2^63-1
     ivs = sorted(got.values())
     cover = ivs[0][0] == 0 and all(ivs[i][1] + 1 == ivs[i + 1][0] for i in range(len(ivs) - 1)) \
@@ -524,6 +527,8 @@ def mask(R):
             ko, kon = rd.origin(n, k_el)
             order_ok = isinstance(elts[0], ast.Name) and ko is pc
             body = elts[2]
+            if isinstance(body, ast.Name) and not (isinstance(data, ast.Name) and body.id == data.id):
+                body = rd.origin(n, body)[0]          # masked bytes kept in a local first
             while isinstance(body, ast.Call) and U(body.func) in ('bytes', 'bytearray') and body.args:
                 body = body.args[0]
             same_obj = isinstance(body, ast.Name) and isinstance(data, ast.Name) and body.id == data.id \
